@@ -707,7 +707,7 @@ package core
 //@ ghost execIn []Bindings
 //@ ghost execOut []Bindings
 //@ iface Query.Exec
-//@   ghost-ensures execIn == old(qr.Bss) && (result1 == nil ==> result0 != nil && execOut == result0.Bss)
+//@   ghost-ensures execIn == old(arg3.Bss) && (result1 == nil ==> result0 != nil && execOut == result0.Bss)
 //@   also-modifies execIn, execOut
 
 //@ func (EmptyQuery).Exec
@@ -730,6 +730,7 @@ package core
 //@ func (*Bindings).Bind
 //@   assert[C03.bind_builds_a_fresh_array] at "append(bound, bs.Bind(ctx, x))": fresh(arr(bound))
 //@   assert[C03.bind_builds_a_fresh_map]   at "bound[k]": fresh(bound)
+//@   loop 2: invariant[C03.bind_array_loop] fresh(arr(bound))
 
 //@ func (PatternQuery).Exec
 //@   assert[C03.pattern_searches_the_bound_pattern] at "loc.SearchLocations(ctx, locations, m)": is(bound, map[string]interface{}) && m == bound.(map[string]interface{})
